@@ -34,7 +34,7 @@ Example C20w_remove : exists x', do_remove never h0 x0 = (x', true) /\ fs_get (s
   fs_get (s "", s "secret") (fs x') = Some (s "X").
 Proof. eexists. split; [vm_compute; reflexivity|]. vm_compute. repeat split. Qed.
 Definition hbad : handle := {| h_dir := s "up"; h_file := s "p.changes"; h_listed := [s "p.deb"; s "../secret"] |}.
-Example C20w_traversal : forallb plain (h_listed hbad) = false /\ do_move never hbad (s "in") x0 = (x0, false) /\ do_copy never hbad (s "in") x0 = (x0, false).
+Example C20w_traversal : listed_ok hbad = false /\ do_move never hbad (s "in") x0 = (x0, false) /\ do_copy never hbad (s "in") x0 = (x0, false).
 Proof. vm_compute. repeat split. Qed.
 
 (* a history: copy, then remove through the same handle *)
